@@ -38,14 +38,48 @@ def sig_of(kind):
     return getattr(signals, "E" + kind[1:])
 
 
-def build_template(c, regs, hsm, log, use_factory=False, name_handled=False, fns=None, bound=False):
+def lookup_state(name):
+    """a flat state function in the documented look-up style: it asks the chart for the callback registered for (itself, signal)
+    - handing ITSELF to signal_callback - and for its parent"""
+    ns = {"return_status": return_status}
+    exec("def %s(chart, e):\n"
+         "    with chart.signal_callback(e, %s) as fn:\n"
+         "        status = fn(chart, e)\n"
+         "    if status == return_status.UNHANDLED:\n"
+         "        with chart.parent_callback(%r) as parent:\n"
+         "            status, chart.temp.fun = return_status.SUPER, parent\n"
+         "    return status\n" % (name, name, name), ns)
+    return ns[name]
+
+
+# names of the template state functions (None: s1, s2, ...). A state's name is only a name: short ones, ones contained in one another
+# or in `top`, ones that look like the library's own words (all valid identifiers - to_code emits `def <name>(chart, e)`)
+STATE_NAMES = None
+TEMPLATE_NAME_POOL = ["t", "o", "p", "to", "op", "stop", "topmost", "laptop", "a", "ab", "abc", "s", "s_1", "S1", "state1", "state10", "outer",
+                      "inner", "init", "idle", "Idle", "on", "off", "x1", "x11", "super", "trans", "_", "__"]
+
+
+def sname(i):
+    return STATE_NAMES[i] if STATE_NAMES and i in STATE_NAMES else "s%d" % i
+
+
+def canon_name(name):
+    """the name of a template state back to s<i>"""
+    if STATE_NAMES and name is not None:
+        for i, nm in STATE_NAMES.items():
+            if nm == name:
+                return "s%d" % i
+    return name
+
+
+def build_template(c, regs, hsm, log, use_factory=False, name_handled=False, fns=None, bound=False, lookup=False):
     """state_method_template + register_signal_callback + register_parent on `hsm`
     (fns: template state functions already in use by another chart, to be shared)"""
     cbs = {}
     if fns is None:
         fns = {}
         for i in range(1, c.n + 1):
-            fns[i] = mhsm.state_method_template("s%d" % i)
+            fns[i] = lookup_state(sname(i)) if lookup else mhsm.state_method_template(sname(i))
 
     def mk_cb(i, kind, cbk, tgt):
         def cb(chart, e):
@@ -103,12 +137,13 @@ def build_template(c, regs, hsm, log, use_factory=False, name_handled=False, fns
             # a state with no callbacks still needs an entry in the lookup table for to_code
             if not hasattr(hsm, "_lookup"):
                 hsm._lookup = {}
-            hsm._lookup.setdefault("s%d" % i, {})
+            hsm._lookup.setdefault(sname(i), {})
         if getattr(c, "reparented", None) and i in c.reparented:
             # the design was re-nested before the chart was started: the state's parent is declared twice, the last declaration counts
             decoy = c.reparented[i]
             hsm.register_parent(fns[i], fns[decoy] if decoy else hsm.top)
         hsm.register_parent(fns[i], fns[c.parent[i]] if c.parent[i] else hsm.top)
+    hsm._vp_mk_cb = mk_cb
     return fns, cbs
 
 
@@ -144,7 +179,7 @@ def encode_table(first_state, items, name_handled):
     return " ".join(str(t) for t in toks)
 
 
-def run_build(c, regs, style, start, evs, name_handled=False):
+def run_build(c, regs, style, start, evs, name_handled=False, rereg=None):
     """returns (callback-invocation log, final state name, to_code texts or None)"""
     log = []
     hsm = charts.probed_class(mhsm.HsmWithQueues)()
@@ -182,7 +217,8 @@ def run_build(c, regs, style, start, evs, name_handled=False):
                         other.next_rtc()
             except (mhsm.HsmTopologyException, Diverged):
                 pass
-        tfns, cbs = build_template(c, regs, hsm, log, name_handled=name_handled, fns=shared, bound=(style == "template-bound"))
+        tfns, cbs = build_template(c, regs, hsm, log, name_handled=name_handled, fns=shared, bound=(style == "template-bound"),
+                                   lookup=(style == "lookup"))
         if style == "template-other-design":
             # a different chart whose states happen to have the same names is assembled afterwards on another object
             r3 = random.Random(1000 * start + len(evs) + c.n)
@@ -190,7 +226,7 @@ def run_build(c, regs, style, start, evs, name_handled=False):
             other2 = charts.probed_class(mhsm.HsmWithQueues)()
             build_template(c2, registrations(c2, order_seed=r3.randrange(1 << 30)), other2, [], name_handled=False)
         texts = {i: hsm.to_code(tfns[i]) for i in tfns}
-        if style in ("template", "template-shared", "template-bound", "template-other-design", "template-shared-other-tree"):
+        if style in ("template", "template-shared", "template-bound", "template-other-design", "template-shared-other-tree", "lookup"):
             fns = tfns
         else:
             ns = {"spy_on": mhsm.spy_on, "return_status": return_status, "signals": signals}
@@ -200,7 +236,7 @@ def run_build(c, regs, style, start, evs, name_handled=False):
             # the callbacks must transition to the *flat* functions
             for i in sorted(texts):
                 exec(texts[i], ns)
-            flat = {i: ns["s%d" % i] for i in texts}
+            flat = {i: ns[sname(i)] for i in texts}
             # re-create callbacks bound to the flat functions
             log2 = log
 
@@ -219,20 +255,97 @@ def run_build(c, regs, style, start, evs, name_handled=False):
                     if nm != "handled":
                         ns[nm] = rebinding(i, kind, cbk, tgt)
             fns = flat
+    saved_react = None
+    head = []
     try:
         hsm.start_at(fns[start])
-        for n in evs:
+        for idx, n in enumerate(evs):
+            if rereg is not None and idx == rereg[0]:
+                # the program changes one state's reaction to one signal between two events
+                _, ri, rs, rkind, rtgt = rereg
+                if style == "hand":
+                    saved_react = (ri, rs, c.react[ri].get(rs))
+                    c.react[ri][rs] = (rkind, rtgt) if rkind == "T" else (rkind,)
+                    # (the hand-written chart logs every offer; only offers to REGISTERED reactions count as callback runs)
+                    head = [(i, k) for i, k in raw if (i, k) in registered]
+                    del raw[:]
+                    registered = set(registered) | {(ri, "u%d" % rs)}
+                else:
+                    hsm.register_signal_callback(fns[ri], sig_of("u%d" % rs), hsm._vp_mk_cb(ri, "u%d" % rs, rkind, rtgt))
             hsm.post_fifo(charts.ev(n))
             hsm.next_rtc()
-        final = hsm.state_name
+        final = hsm.state_name if style == "hand" else canon_name(hsm.state_name)
         err = None
     except (mhsm.HsmTopologyException, Diverged) as ex:
         final, err = None, type(ex).__name__
     except Exception as ex:  # noqa  (a callback or the generated state failed: reported through the comparison)
         final, err = None, "%s: %s" % (type(ex).__name__, ex)
+    if saved_react is not None:
+        ri, rs, prev = saved_react
+        if prev is None:
+            c.react[ri].pop(rs, None)
+        else:
+            c.react[ri][rs] = prev
     if style == "hand":
-        log = [(i, k) for i, k in raw if (i, k) in registered]
+        log = head + [(i, k) for i, k in raw if (i, k) in registered]
     return log, final, err, texts
+
+
+AWKWARD_STATE_NAMES = ["init", "stop", "print", "trans", "queue", "thread", "rtc", "dispatch", "defer", "recall", "publish", "spy", "trace",
+                       "states", "name", "live_spy", "post_fifo", "fabric", "writer", "subscribe"]
+
+
+def run_factory(c, regs, start, evs, names):
+    """the chart assembled with the Factory class (create / catch / nest / to_method) - an active object - and driven through its
+    queue under the deterministic scheduler; returns (callback log, final state index, error)"""
+    import dsched
+    import miros.activeobject as mao
+    log, errors, res = [], [], {}
+    with dsched.Installed():
+        sched = dsched.Sched(dsched.round_robin_chooser(), max_steps=20000, trace=False)
+        dsched.Sched.current = sched
+        try:
+            def driver():
+                chart = mao.Factory("F")
+                bps = {i: chart.create(state=names[i]) for i in range(1, c.n + 1)}
+                fns = {i: bps[i].to_method() for i in bps}
+
+                def mk_cb(i, kind, cbk, tgt):
+                    def cb(ch, e):
+                        log.append((i, kind))
+                        if cbk == "T":
+                            return ch.trans(fns[tgt])
+                        if cbk == "H":
+                            return return_status.HANDLED
+                        return return_status.UNHANDLED
+                    cb.__name__ = "cb_%d_%s_%s%d" % (i, kind, cbk, tgt)
+                    return cb
+                for i in range(1, c.n + 1):
+                    for kind, cbk, tgt in regs[i]:
+                        bps[i].catch(signal=sig_of(kind), handler=mk_cb(i, kind, cbk, tgt))
+                for i in range(1, c.n + 1):
+                    if not regs[i]:
+                        # (as in build_template: a state without any callback still needs its - empty - entry in the look-up table)
+                        if not hasattr(chart, "_lookup"):
+                            chart._lookup = {}
+                        chart._lookup.setdefault(names[i], {})
+                    chart.nest(fns[i], parent=fns[c.parent[i]] if c.parent[i] else None)
+                chart.start_at(fns[start])
+                for n in evs:
+                    chart.post_fifo(charts.ev(n))
+                me = sched.me()
+                sched.yield_point("driver.settle", enabled=lambda: all(t is me or t.finished or not sched.is_enabled(t) for t in sched.threads))
+                nm = getattr(chart.state.fun, "__name__", None)
+                res["final"] = next((i for i in names if names[i] == nm), None)
+                res["pending"] = len(chart.queue)
+            sched.spawn(driver, (), name="D")
+            sched.run()
+            for t in sched.threads:
+                if t.error is not None:
+                    errors.append("%s: %s: %s" % (t.name, type(t.error).__name__, t.error))
+        finally:
+            sched.shutdown()
+    return log, res.get("final"), (errors[0] if errors else None), res.get("pending")
 
 
 def norm_(log, regs, name_handled):
@@ -270,10 +383,22 @@ def explore(run, n_random, none_rate=0.0):
         regs = registrations(c, order_seed=rng.randrange(1 << 30))
         cases.append((c, regs, start, evs, name_handled))
     results = []
+    global STATE_NAMES
     for c, regs, start, evs, name_handled in cases:
+        STATE_NAMES = None
+        if rng.random() < 0.4:
+            pool = rng.sample(TEMPLATE_NAME_POOL, min(c.n, len(TEMPLATE_NAME_POOL)))
+            # (states that are parents get the odd names first: a name matters most where other states refer to it)
+            parents = [i for i in range(1, c.n + 1) if any(c.parent[j] == i for j in range(1, c.n + 1))]
+            chosen = (rng.sample(parents, min(len(parents), rng.randint(1, 3))) if parents and rng.random() < 0.7 else []) + \
+                rng.sample(range(1, c.n + 1), rng.randint(0, min(c.n, 2)))
+            STATE_NAMES = {i: pool.pop() for i in dict.fromkeys(chosen)}
+            run.count("template states with names of their own (short, contained in one another or in `top`)")
         cj = {"chart": c.to_json(), "start": start, "events": evs, "name_handled": name_handled,
               "reparented": {str(k): v for k, v in getattr(c, "reparented", {}).items()},
               "regs": {str(i): [list(x) for x in regs[i]] for i in regs}}
+        if STATE_NAMES:
+            cj["template_names"] = {str(k): v for k, v in STATE_NAMES.items()}
         hand = run_build(c, regs, "hand", start, evs)
         tmpl = run_build(c, regs, "template", start, evs, name_handled)
         if getattr(c, "malformed", None):
@@ -298,6 +423,41 @@ def explore(run, n_random, none_rate=0.0):
             if bnd[0] != tmpl[0] or bnd[1] != tmpl[1] or bnd[2] != tmpl[2]:
                 run.violate("C17/bound-method-callbacks", "callbacks registered as bound methods of a collaborator object ran %s and ended in %s "
                             "(%s); the same callbacks as plain functions %s, %s (%s)" % (bnd[0][:30], bnd[1], bnd[2], tmpl[0][:30], tmpl[1], tmpl[2]), cj)
+        if not name_handled and len(evs) >= 2:
+            # flat state functions in the look-up style; one reaction is registered anew (changed) between two events
+            path_states = c.path(start)
+            ri = rng.choice(path_states) if rng.random() < 0.7 else rng.randrange(1, c.n + 1)
+            rs = rng.choice(evs)
+            rkind = rng.choice(["T", "H", "U"])
+            rereg = (rng.randrange(1, len(evs)), ri, rs, rkind, rng.randrange(1, c.n + 1) if rkind == "T" else 0)
+            h2 = run_build(c, regs, "hand", start, evs, False, rereg=rereg)
+            for st_name in ("lookup", "template"):
+                l2 = run_build(c, regs, st_name, start, evs, False, rereg=rereg)
+                run.traces_validated += 1
+                run.count("%s build with a reaction registered anew between two events" % st_name)
+                if l2[0] != h2[0] or l2[1] != h2[1] or l2[2] != h2[2]:
+                    run.violate("%s/re-registered-reaction/%s" % (getattr(run, "factory_key", "C17"), st_name),
+                                "%s-style chart, reaction of state %d to E%d registered anew as %s before event %d: it ran %s and ended in %s (%s); "
+                                "the hand-written chart with the same change %s, %s (%s)" % (st_name, ri, rs, rkind, rereg[0], l2[0][:30], l2[1], l2[2],
+                                                                                             h2[0][:30], h2[1], h2[2]), dict(cj, rereg=list(rereg)))
+                    break
+        if not name_handled and tmpl[2] is None and rng.random() < 0.35:
+            # the same chart built with the Factory (an active object), its states named s<i> or after things a chart object has
+            names = {i: "s%d" % i for i in range(1, c.n + 1)}
+            awkward = rng.random() < 0.6
+            if awkward:
+                pool = rng.sample(AWKWARD_STATE_NAMES, min(c.n, len(AWKWARD_STATE_NAMES)))
+                for i in rng.sample(range(1, c.n + 1), rng.randint(1, min(c.n, 3))):
+                    names[i] = pool.pop()
+            fl, ff, fe, fp = run_factory(c, regs, start, evs, names)
+            run.traces_validated += 1
+            run.count("Factory build" + (" with states named after attributes of the chart object" if awkward else ""))
+            want_final = int(tmpl[1][1:]) if tmpl[1] else None
+            if fe or fl != tmpl[0] or ff != want_final or fp:
+                run.violate("%s/factory-vs-template" % getattr(run, "factory_key", "C17"),
+                            "the chart built with Factory.create/catch/nest (states named %s) ran %s and ended in state %s (%s, %s events left "
+                            "queued); the template build on a queued chart ran %s and ended in %s" % (
+                                [names[i] for i in sorted(names)], fl[:30], ff, fe, fp, tmpl[0][:30], want_final), dict(cj, state_names=names))
         tre = run_build(c, regs, "template-shared-other-tree", start, evs, name_handled)
         run.traces_validated += 1
         if norm_(tre[0], regs, name_handled) != norm_(tmpl[0], regs, name_handled) or tre[1] != tmpl[1] or tre[2] != tmpl[2]:
@@ -337,6 +497,7 @@ def explore(run, n_random, none_rate=0.0):
             lines.append(encode_table(i == first_registered, regs[i], name_handled))
             metas.append((cj, i, texts[i], c))
         run.case(cj, nontrivial=True)
+    STATE_NAMES = None
     outs = leanrun.run_driver(lines)
     for (cj, i, text, c), mo in zip(metas, outs):
         ladder, parent = parse_to_code(text)
@@ -347,7 +508,7 @@ def explore(run, n_random, none_rate=0.0):
             else:
                 m = re.match(r"cb_\d+_\w+?_([THU])(\d+)$", rhs)
                 got.append("%s:%s" % (kind, ("T" + m.group(2)) if m.group(1) == "T" else m.group(1)))
-        want_parent = "chart.top" if c.parent[i] == 0 else "s%d" % c.parent[i]
+        want_parent = "chart.top" if c.parent[i] == 0 else cj.get("template_names", {}).get(str(c.parent[i]), "s%d" % c.parent[i])
         run.traces_validated += 1
         if ",".join(got) != mo or parent != want_parent:
             run.disagree("to_code ladder", dict(cj, state=i), mo + " parent=" + want_parent, ",".join(got) + " parent=" + parent)
@@ -359,7 +520,12 @@ def replay(case):
     if cc.get("reparented"):
         c.reparented = {int(k): v for k, v in cc["reparented"].items()}
     regs = {int(i): [tuple(x) for x in v] for i, v in cc["regs"].items()}
-    for style in ("hand", "template", "flat", "template-shared", "template-bound", "template-other-design", "template-shared-other-tree"):
-        r = run_build(c, regs, style, cc["start"], cc["events"], cc.get("name_handled", False))
+    global STATE_NAMES
+    STATE_NAMES = {int(k): v for k, v in cc["template_names"].items()} if cc.get("template_names") else None
+    if cc.get("state_names"):
+        print("factory", run_factory(c, regs, cc["start"], cc["events"], {int(k): v for k, v in cc["state_names"].items()}))
+    rr = tuple(cc["rereg"]) if cc.get("rereg") else None
+    for style in ("hand", "template", "lookup", "flat", "template-shared", "template-bound", "template-other-design", "template-shared-other-tree"):
+        r = run_build(c, regs, style, cc["start"], cc["events"], cc.get("name_handled", False), rereg=rr if style in ("hand", "template", "lookup") else None)
         print(style, r[:3])
     return 0
